@@ -31,6 +31,8 @@ mod tree;
 mod wrappers;
 
 mod ops;
+#[cfg(not(no_ops_blocks))]
+mod ops_blocks;
 #[cfg(not(no_ops_cps))]
 mod ops_cps;
 #[cfg(not(no_ops_macros))]
